@@ -65,6 +65,20 @@ impl LoopCampaign {
             let (d, iv) = long_times(&mut rng, d0, i0);
             l.mappings[i].repeat = Repeat::Special { keys, delay_ms: d, interval_ms: iv };
           }
+          // one special-repeat layout in twelve gets a long repeat chord (9-14 keys, most of the
+          // modifiers among them, in random positions): a key late in a long chord that is held when
+          // the chord is due
+          if self.force_special && crate::rng::mix(seed, 0x109c) % 12 == 0 {
+            let mut r3 = Rng::new(crate::rng::mix(seed, 0x109d));
+            if let Some(m) = l.mappings.iter_mut().find(|m| matches!(m.repeat, Repeat::Special { .. })) {
+              if let Repeat::Special { keys, .. } = &mut m.repeat {
+                let pool: Vec<KeyCode> = OUT_MODS_BIG.iter().chain(OUT_ACT_BIG.iter()).chain(TRIG_POOL.iter()).cloned().collect();
+                let want = r3.range(9, 14);
+                let mut guard = 0;
+                while keys.len() < want && guard < 200 { guard += 1; let k = r3.pick(&pool); if !keys.contains(&k) { let at = r3.below(keys.len() + 1); keys.insert(at, k); } }
+              }
+            }
+          }
           tries += 1;
           match through_loader(&l) { Some(l2) => break (l2, "random".to_string()), None => { if tries > 20 { break (Layout { mappings: vec![] }, "empty-fallback".to_string()); } } }
         }
